@@ -686,6 +686,7 @@ struct ScriptSink {
 
 impl io::Write for ScriptSink {
     fn write(&mut self, buf: &[u8]) -> io::Result<usize> {
+        simkernel::heartbeat::beat();
         self.calls += 1;
         if let Some(j) = self.fail_after {
             if self.accepted.len() >= j {
